@@ -237,6 +237,11 @@ SPEC_FORMS = {
 
 
 _REC_CACHE = {}
+# opt-in (pyvc/ext_c10.py): range requirements of struct.pack in the body of a comprehension of the code under proof over a
+# symbolic sequence are collected and make the comprehension raise when violated.  Off (the behaviour before C10): such a
+# body is evaluated with total primitives, i.e. a struct.error there is NOT seen -- contracts that rely on that are listed
+# in notes/C10/NOTES.md
+COMP_REQUIREMENTS = False
 SNOC_LEMMA = False  # opt-in (pyvc/ext_c10.py): also prove / instantiate F(s ++ [x]) == F(s) ++ [m(x)] if c(x)
 
 
@@ -286,7 +291,7 @@ def symbolic_comprehension(ex, elt, gens, node):
     # a comprehension of the *code under proof* (not of a clause / ghost function): requirements of partial
     # primitives in its body (struct.pack ranges) are collected instead of being silently total
     saved_reqs = getattr(ex, 'quant_reqs', None)
-    ex.quant_reqs = [] if (ex.spec_mode == 0 and not ex.quant) else saved_reqs
+    ex.quant_reqs = [] if (COMP_REQUIREMENTS and ex.spec_mode == 0 and not ex.quant) else saved_reqs
     ex.quant += 1
     ex.spec_mode += 1
     try:
